@@ -10,7 +10,7 @@ var plans = map[string]Plan{
 		Tools: []string{"bondmachine"},
 		Runs: []Run{
 			{Test: "^TestProps$/^topology$", Checks: checks(1500, 40000), Shards: shards(4, 16)},
-			{Test: "^TestProps$/^cli_topology$", Checks: checks(25, 500), Shards: shards(4, 8)},
+			{Test: "^TestProps$/^cli_topology$", Checks: checks(12, 400), Shards: shards(4, 8)},
 		},
 		Assumptions: []string{
 			"negative ids are never passed to Del_* (every caller in cmd/bondmachine guards them)",
@@ -60,7 +60,7 @@ var plans = map[string]Plan{
 	"C04": {
 		Pkg: "c04",
 		Runs: []Run{
-			{Test: "^TestProps$/^sim_history$", Checks: checks(1500, 60000), Shards: shards(4, 16)},
+			{Test: "^TestProps$/^sim_history$", Checks: checks(1500, 30000), Shards: shards(4, 16)},
 			{Test: "^TestProps$/^hdl_history$", Checks: checks(250, 8000), Shards: shards(4, 16)},
 			{Test: "^TestProps$/^sim_join$", Checks: checks(600, 20000), Shards: shards(2, 8)},
 			{Test: "^TestProps$/^hdl_join$", Checks: checks(250, 8000), Shards: shards(2, 8)},
